@@ -951,3 +951,18 @@ _load_benign_patches()
 mut('c19-dict-entry-branch-dropped', ['C19'], M,
     [("        elif c == '{':\n            x = find_end(i + 1, '{', '}')\n            yield compoundSig[i:x + 1]\n            i = x\n\n", "")], ['C19.D3'],
     note='with the dict-entry branch gone "{" is yielded as a one-character type')
+twin('c05-prefix-unbounded-signature', ['C05'], 'd5d9176', ['C05.D5'], 'pre-fix twin')
+
+# round-3 seeds as regression mutants ---------------------------------------------
+mut('c04-length-guard-before-line-loop', ['C04', 'C06', 'C07'], PR,
+    [("            self._buffer = self._buffer + data\n            # Consume one line at a time", "            self._buffer = self._buffer + data\n            if len(self._buffer) > self.MAX_AUTH_LENGTH:\n                return self.authMessageLengthExceeded(self._buffer)\n            # Consume one line at a time")], ['C04.D6', 'C06.D5', 'C07.D7'],
+    note='round-3 seed: the line-length limit applied to the whole buffer before the lines are taken out')
+mut('c07-cookie-except-narrowed', ['C07'], AU,
+    [("            except Exception as e:\n                log.msg('DBUS Cookie authentication failed: ' + str(e))", "            except (ValueError, OSError) as e:\n                log.msg('DBUS Cookie authentication failed: ' + str(e))")], ['C07.D4'],
+    note='round-3 seed: a missing cookie id (TypeError) escapes from dataReceived')
+mut('c07-cookie-lookup-outside-try', ['C07'], AU,
+    [("            try:\n                data = binascii.unhexlify(line.strip())\n\n                cookie_context, cookie_id, server_challenge = data.split()\n\n                server_cookie = self._authGetDBusCookie(\n                    cookie_context,\n                    cookie_id,\n                )\n",
+      "            data = binascii.unhexlify(line.strip())\n            cookie_context, cookie_id, server_challenge = data.split()\n            server_cookie = self._authGetDBusCookie(\n                cookie_context,\n                cookie_id,\n            )\n            try:\n")], ['C07.D4'])
+mut('c03-reply-serial-not-rewrapped', ['C03'], MS,
+    [("                elif attr_name in ('unix_fds', 'reply_serial'):\n", "                elif attr_name in ('unix_fds',):\n")], ['C03.D2'],
+    note='round-3 seed')
